@@ -41,6 +41,21 @@ def valid_specs(tier, modes=MODES):
                 add('%s: 3 calls, 1 block each, <=2 files each' % mname, cont, chunk, [call(1, 2), call(1, 2), call(1, 2)], 12)
             else:
                 add('%s: 1 call, <=4 files' % mname, cont, chunk, [call(1, 4)], 2)
+    # W2, inductive step: ONE call from ANY state satisfying the representation invariant Inv_W (a file is open; see wpath.install_open_state);
+    # together with the obligation that every accepted call re-establishes Inv_W this covers call number k of a history of any length
+    for mname, cont, chunk in modes:
+        add('%s: any Inv_W state, 1 call, 1 block, <=3 files' % mname, cont, chunk, [call(1)], 2, pre='open')
+        add('%s: any Inv_W state, C API digital_rf_write_hdf5, <=3 files' % mname, cont, chunk, [call(1)], 2, pre='open', api='single')
+        if not cont:
+            add('%s: any Inv_W state, 1 call, 2 blocks, <=3 files' % mname, cont, chunk, [call(2)], 4, pre='open')
+            add('%s: any Inv_W state, 1 call, 3 blocks, <=2 files' % mname, cont, chunk, [call(3, 2)], 10, pre='open')
+            add('%s: any Inv_W state, complex, 3 subchannels, 8-byte elements, 2 blocks, <=2 files' % mname, cont, chunk, [call(2, 2)], 3, pre='open', cplx=1, nsub=3, tsize=8)
+        if tier == 'thorough':
+            add('%s: any Inv_W state, 1 call, 1 block, <=4 files' % mname, cont, chunk, [call(1, 4)], 4, pre='open')
+            add('%s: any Inv_W state, 2 calls, 1 block each, <=2 files each' % mname, cont, chunk, [call(1, 2), call(1, 2)], 10, pre='open')
+            if not cont:
+                add('%s: any Inv_W state, 1 call, 3 blocks, <=3 files' % mname, cont, chunk, [call(3, 3)], 40, pre='open')
+                add('%s: any Inv_W state, 1 call, 4 blocks, <=2 files' % mname, cont, chunk, [call(4, 2)], 40, pre='open')
     # regular-window twins (rate m Hz, 1 s files, 2 s subdirs): every path yields a concrete history that is replayed on the real build
     for mname, cont, chunk in modes:
         for m in ((2, 5) if tier == 'quick' else (1, 2, 5)):
@@ -191,6 +206,22 @@ def report(rep, specs, results, select, sigmap=None, label='write path'):
         else:
             rep.violation(nm, sig, 'fails in "%s"; history %s on config %s' % (sp['name'], real[1], real[0]),
                           replay_body=wrun.REPLAY_BODY % (real[0], real[1]), bounds=sp['name'], sample={'config': real[0], 'history': real[1]})
+    # vacuity guard of the inductive step: the symbolic Inv_W pre-state must reach every kind of continuation
+    ind = [(sp, r) for sp, r in zip(specs, results) if sp.get('pre') == 'open' and sp.get('checker', 'valid') == 'valid' and select(wpath.INV_NAME)]
+    if ind:
+        for (cont, chunk) in sorted(set((sp['cont'], sp['chunk']) for sp, _ in ind)):
+            reach = {}
+            for sp, r in ind:
+                if (sp['cont'], sp['chunk']) == (cont, chunk):
+                    for k_, v_ in (r.get('reach') or {}).items(): reach[k_] = reach.get(k_, 0) + v_
+            want = ['step continues the file that was open before the call', 'step fills the open file and rolls over to a new one',
+                    'step leaves the open file untouched and starts a later file', 'the file that was open before the call is finalized (renamed)']
+            if chunk: want.append('step appends index rows to the file that was open before the call')
+            missing = [w_ for w_ in want if not reach.get(w_)]
+            mode = 'gapped' if not cont else ('cont-chunked' if chunk else 'cont')
+            rep.ob('inductive step is not vacuous (%s): paths from the symbolic Inv_W state continue the open file, roll over, skip to a later file, and '
+                   'finalize the open file' % mode, 'witness' if not missing else 'inconclusive', None, 0, 0, sum(reach.values()),
+                   detail=None if not missing else 'not reached: %s' % missing)
     return tot
 
 
@@ -210,6 +241,15 @@ def reject_specs(tier, modes=MODES):
         add('%s: C API digital_rf_write_hdf5: valid call then arbitrary index' % mname, cont, chunk, [call(1, 2), arb(1)], 4, api='single')
         add('%s: valid call, then zero-length call with arbitrary arrays' % mname, cont, chunk, [call(1, 2), call(2 if not cont else 1, 2, valid=False, minv=0, maxv=0)], 2,
             checker='zero')
+        # inductive step (see valid_specs): an arbitrary call from ANY Inv_W state
+        add('%s: any Inv_W state, arbitrary 1-block call' % mname, cont, chunk, [arb(1)], 2, pre='open')
+        add('%s: any Inv_W state, arbitrary 2-block call' % mname, cont, chunk, [arb(2)], 6, pre='open')
+        add('%s: any Inv_W state, NULL data pointer' % mname, cont, chunk, [arb(1, null_vector=True)], 1, pre='open')
+        add('%s: any Inv_W state, C API digital_rf_write_hdf5 with an arbitrary index' % mname, cont, chunk, [arb(1)], 2, pre='open', api='single')
+        add('%s: any Inv_W state, zero-length call with arbitrary arrays' % mname, cont, chunk, [call(2 if not cont else 1, 2, valid=False, minv=0, maxv=0)], 1,
+            checker='zero', pre='open')
+        if tier == 'thorough':
+            add('%s: any Inv_W state, arbitrary 3-block call' % mname, cont, chunk, [arb(3)], 30, pre='open')
         if tier == 'thorough':
             add('%s: arbitrary 3-block call on a fresh writer' % mname, cont, chunk, [arb(3)], 20)
             add('%s: valid 2-block call, then arbitrary 2-block call' % mname, cont, chunk, [call(2 if not cont else 1, 2), arb(2)], 40)
